@@ -21,6 +21,7 @@ RULE = ("Generated: stand-alone assets of every class and portfolios of them (T 
         "lists the same pairs in row order; periodic assets: steps sharing a variable are whole periods apart (all of them without a duration; within q periods and with at most one extra partial block with a duration - where blocks begin is not assumed), identically for every node and variable name. In 1 of 2 cases also the split build (6h, 12h, d): c is the stacked c, interval k's rows of the split mapping are its own rows with the index shifted by the number of variables before it and the steps by a constant, step ranges of successive intervals follow each other. Non-trivial: some asset has an unmapped variable, several rows per "
         "variable, appended variables (bool/scale) or an adversarial name, and the portfolio has >= 2 assets. "
         "Distinct = distinct spec hash.")
+RULE += (" Split builds: the nodal rows of every interval problem are checked against the interval's own mapping; 1 in 8 cases is a two-interval split in which a windowed asset owns equally many steps at different places of the two intervals. Coarse / periodic storages may carry binary variables.")
 ASSUMPTIONS = ["structural comparison rtol 1e-9 / atol 1e-12, no solver",
                "set-up errors are discarded and counted except NaN/bound assertion failures, which C07 owns"]
 
